@@ -111,7 +111,22 @@ namespace ratio
                             ++mcs_end;
                         }
 
-                        if (mcs_usage > c_capacity)
+                        if (mcs_usage > c_capacity && c_mcs.size() == 1)
+                        { // a single atom exceeds the capacity: no ordering can help, at most the atom can be moved away from this resource..
+                            std::vector<std::pair<lit, double>> choices;
+                            expr a_tau = c_mcs.front()->get(TAU);
+                            if (var_item *a_tau_itm = dynamic_cast<var_item *>(&*a_tau))
+                                if (const auto alw = get_solver().get_ov_theory().allows(a_tau_itm->ev, *rr); get_solver().get_sat_core().value(alw) == Undefined)
+                                    choices.emplace_back(!alw, 0.);
+                            incs.emplace_back(choices);
+
+                            // we decrease the size of the mcs..
+                            arith_expr amount = c_mcs.front()->get(REUSABLE_RESOURCE_USE_AMOUNT_NAME);
+                            mcs_usage -= get_core().arith_value(amount);
+                            c_mcs.pop_front();
+                            ++mcs_begin;
+                        }
+                        else if (mcs_usage > c_capacity)
                         { // we have a new mcs..
                             std::set<atom *> mcs(c_mcs.cbegin(), c_mcs.cend());
                             if (!rr_flaws.count(mcs))
